@@ -6,8 +6,8 @@ LEVEL = 'model_checking'
 PID = 'C07'
 FAMILY = 'reset'
 PROPS = ['P_C07']
-BASE = [{'role': 'acc', 'bs': 42}, {'role': 'init', 'bs': 42, 'resetSeqTime': True}, {'role': 'acc', 'bs': 44, 'resetSeqTime': True}, {'role': 'init', 'bs': 42, 'schedule': True}, {'role': 'init', 'bs': 42, 'resetOnLogon': True}, {'role': 'acc', 'bs': 42, 'resetOnLogout': True}, {'role': 'init', 'bs': 44, 'resetOnDisconnect': True}]
-ALT = [{'role': 'init', 'bs': 42, 'resetOnLogout': True}, {'role': 'acc', 'bs': 42, 'schedule': True}, {'role': 'init', 'bs': 44, 'resetOnDisconnect': True}, {'role': 'acc', 'bs': 44, 'resetOnLogon': True}, {'role': 'init', 'bs': 40, 'resetOnLogon': True}, {'role': 'init', 'bs': 42}, {'role': 'acc', 'bs': 41, 'resetOnDisconnect': True}, {'role': 'init', 'bs': 44, 'resetOnLogout': True}, {'role': 'acc', 'bs': 50, 'resetOnLogon': True, 'resetOnLogout': True, 'resetOnDisconnect': True}]
+BASE = [{'role': 'acc', 'bs': 42}, {'role': 'acc', 'bs': 44, 'resetSeqTime': True}, {'role': 'acc', 'bs': 42, 'schedule': True}, {'role': 'init', 'bs': 42, 'resetOnLogon': True}, {'role': 'acc', 'bs': 42, 'resetOnLogout': True}, {'role': 'init', 'bs': 44, 'resetOnDisconnect': True}]
+ALT = [{'role': 'init', 'bs': 42, 'resetOnLogout': True}, {'role': 'init', 'bs': 42, 'schedule': True, 'maxIn': 2}, {'role': 'init', 'bs': 42, 'resetSeqTime': True, 'maxIn': 2}, {'role': 'init', 'bs': 44, 'resetOnDisconnect': True}, {'role': 'acc', 'bs': 44, 'resetOnLogon': True}, {'role': 'init', 'bs': 40, 'resetOnLogon': True}, {'role': 'init', 'bs': 42}, {'role': 'acc', 'bs': 41, 'resetOnDisconnect': True}, {'role': 'init', 'bs': 44, 'resetOnLogout': True}, {'role': 'acc', 'bs': 50, 'resetOnLogon': True, 'resetOnLogout': True, 'resetOnDisconnect': True}]
 
 
 def configs(ctx):
